@@ -162,6 +162,17 @@ fn add_types_prefix(ts_type: &str) -> String {
     }
 }
 
+/// Verification hooks: re-export private helpers to the out-of-tree native replay harness
+#[cfg(feature = "verif-hooks")]
+pub mod verif_hooks {
+    pub fn add_types_prefix(ts_type: &str) -> String {
+        super::add_types_prefix(ts_type)
+    }
+    pub fn ts_property_key(key: &str) -> String {
+        super::ts_property_key(key)
+    }
+}
+
 #[cfg(test)]
 mod tests {
     use super::*;
